@@ -12,7 +12,13 @@ NOT_SHOWN = {
          "all of the above are checked against numerical quadrature of the defining integral by the oracle (rel. 2e-6 outside, 2e-4 inside)"],
  "C13": ["Cuboid = mesh = tetrahedra; Cylinder = sum of segments; partition additivity of magnets; Polyline -> Circle: equalities between different closed forms, oracle only "
          "(proved: Tetrahedron = wrapH of its four Triangle sheets, with an inside test independent of the vertex order)",
-         "TriangularMesh = sum of its Triangle sheets + inside term: the per-row dispatch is wrapH (proved), the mesh inside test and the grouping loop are not modelled"],
+         "TriangularMesh = wrapH of the sum of its Triangle sheets, per row of any batch, with the inside test as a parameter (trimesh_is_wrapH_of_sheets, about the model the "
+         "driver runs); that the ray-casting inside test is the geometric interior is C16 / oracle",
+         "TriangularMesh.to_TriangleCollection / from_triangles / from_mesh / from_ConvexHull preserve the field: not modelled, oracle only",
+         "full_ring_is_cylinder_difference / partial_ring_is_segment unfold the `if` of BHJM_cylinder_segment_internal: the object-oriented wrapper BYPASSES the segment formulas at "
+         "360 degrees; that the segment closed form at 360 degrees equals the Cylinder closed form is not shown; invariance of a CylinderSegment under phi -> phi + 360 for both angles: "
+         "only the helper arctan_k_tan_2 is proved periodic",
+         "polyline_split_additive / polyline_reverse_negates are about the unmasked one-segment kernel; for det = 0 the inside test answers 'outside' everywhere (repo fix 657dea6)"],
  "C14": ["flux / circulation laws for general surfaces and loops and for the elliptic-integral classes: quadrature oracle only",
          "Mathlib has the divergence theorem for boxes only and no Stokes theorem for general loops"],
 }["C13"]
